@@ -42,6 +42,8 @@ type Prop struct {
 	Exhaustive bool
 	// MinTriggers is the least number of non-trivial cases for a pass.
 	MinTriggers int
+	// ChildTimeout overrides the watchdog of one child process, in seconds.
+	ChildTimeout int
 	// Finish may add evidence that is global to the run.
 	Finish func(tier string, cov map[string]any)
 }
@@ -236,7 +238,6 @@ func Main(id, tier string, seed int64, self string) int {
 	var results []*CaseResult
 	var harnessErrs []string
 	var wg sync.WaitGroup
-	perCaseTimeout := 120 * time.Second
 	for k := 0; k < par; k++ {
 		wg.Add(1)
 		go func(k int) {
@@ -248,7 +249,10 @@ func Main(id, tier string, seed int64, self string) int {
 					errFile := out + ".stderr"
 					ef, _ := os.Create(errFile)
 					// timeout -s QUIT leaves a goroutine dump behind on hangs
-					secs := int(perCaseTimeout.Seconds())*(j.to-from)/4 + 120
+					secs := 90 + 3*(j.to-from)
+					if p.ChildTimeout != 0 {
+						secs = p.ChildTimeout
+					}
 					cmd := exec.Command("timeout", "-s", "QUIT", strconv.Itoa(secs), self, "-child", "-prop", id, "-tier", tier, "-seed", strconv.FormatInt(seed, 10), "-from", strconv.Itoa(from), "-to", strconv.Itoa(j.to), "-out", out)
 					cmd.Stdout = ef
 					cmd.Stderr = ef
